@@ -2,6 +2,7 @@ import collections
 import copy
 from typing import List, Tuple, Union, Dict
 
+from autofit.mapper.model import assert_not_frozen
 from autofit.mapper.model_object import ModelObject
 from autofit.mapper.prior_model.attribute_pair import (
     cast_collection,
@@ -32,9 +33,19 @@ class TuplePrior(ModelObject):
     """
 
     def __init__(self, **kwargs):
+        # frozen and thawed together with the model that owns it (AbstractModel.freeze)
+        self._is_frozen = False
         super().__init__()
         for key, value in kwargs.items():
             setattr(self, key, value)
+
+    @assert_not_frozen
+    def __setattr__(self, key, value):
+        super().__setattr__(key, value)
+
+    @assert_not_frozen
+    def __delattr__(self, item):
+        super().__delattr__(item)
 
     @property
     @cast_collection(PriorNameValue)
@@ -179,6 +190,7 @@ class TuplePrior(ModelObject):
         Note applying this twice will give unexpected results.
         """
         new = copy.deepcopy(self)
+        new._is_frozen = False
         for key in tree:
             key, value = self._get_key_value(key)
             delattr(new, key)
